@@ -39,18 +39,18 @@ func (a VC) inc(i int) VC {
 }
 
 type Thread struct {
-	id      int
-	wake    chan struct{}
-	done    bool
-	blocked func() bool // non-nil: thread is blocked until it returns true
-	vc      VC
-	name    string
-	doneCh  chan struct{}
-	daemon  bool
-	parked  bool
+	id         int
+	wake       chan struct{}
+	done       bool
+	blocked    func() bool // non-nil: thread is blocked until it returns true
+	vc         VC
+	name       string
+	doneCh     chan struct{}
+	daemon     bool
+	parked     bool
 	evaluating bool
-	where   string
-	quiescing bool
+	where      string
+	quiescing  bool
 }
 
 type lockState struct {
